@@ -1391,7 +1391,13 @@ func checkStructure(e *simcore.Env, g engine, snapDir, liveRoot string, closedBe
 			}
 		}
 	}
-	e.Event("snapshot directory: %d segment(s), %d shard(s), %d file(s): structure is consistent", nSegs, nShards, len(files))
+	nData := 0 // the series index (bluge) decides by its own asynchronous merges how many files it is made of
+	for rel := range files {
+		if !strings.Contains(rel, "/sidx/") && !strings.Contains(rel, "/idx/") {
+			nData++
+		}
+	}
+	e.Event("snapshot directory: %d segment(s), %d shard(s), %d file(s) outside the indexes: structure is consistent", nSegs, nShards, nData)
 	return true
 }
 
